@@ -28,3 +28,98 @@ Definition in_ranges (c : N) (rs : list (N * N)) : bool :=
 
 Fixpoint assoc {A} (k : str) (l : list (str * A)) : option A :=
   match l with [] => None | (k', v) :: r => if str_eqb k k' then Some v else assoc k r end.
+
+(* ---------------------------------------------------------------------------------------------
+   Results of the XPath front end.
+
+   XPathParsingError(expression, position, message): `position` is optional while the exception
+   travels (handlers fill it in; parse() sets None to 0 and attaches the expression);
+   x_unsupported = the subclass XPathUnsupportedStandardFeature.
+
+   A crash site is one place of the code where a partial operation can fail with an exception
+   that is not an XPathParsingError.  S_guarded_* are the subscripts / isinstance-asserts that
+   directly follow a successful token-pattern match (ParseFacts.v proves them unreachable). *)
+Record xpe := mkXpe { x_pos : option nat; x_msg : str; x_unsupported : bool }.
+
+Inductive xclass := CIndexError | CKeyError | CAssertionError | CValueError | CNotImplementedError.
+
+Inductive site :=
+| S_group_pop                 (* group_enclosed_expressions: openers.pop() on an empty list *)
+| S_group_complement          (* COMPLEMENTING_TOKEN_TYPES[start_token.type] *)
+| S_path_first                (* parse_location_path: tokens[0] after expand_axes *)
+| S_path_not_implemented      (* parse_location_path: raise NotImplementedError *)
+| S_step_all_tokens_last      (* parse_location_step: all_tokens[-1] of an empty step *)
+| S_step_last_not_token       (* assert isinstance(last_token, Token) *)
+| S_step_pi_name              (* assert tokens[0].string == "processing-instruction" *)
+| S_step_pi_arg_index         (* tokens[2][0] *)
+| S_step_pi_arg_not_token     (* assert isinstance(target_name, Token) *)
+| S_step_node_type            (* NODE_TYPE_TEST_MAPPING[tokens[0].string] *)
+| S_step_test_index           (* tokens[0] in the final else of the node test *)
+| S_step_test_not_token       (* assert isinstance(tokens[0], Token) there *)
+| S_step_operators_lookup     (* OPERATORS["="] *)
+| S_step_pred_last_index      (* tokens[-1] in the predicate loop (tokens is non-empty there) *)
+| S_step_pred_last_not_token  (* assert isinstance(tokens[-1], Token) *)
+| S_expr_int                  (* int(tokens[0].string): longer than sys.get_int_max_str_digits() *)
+| S_expr_operand              (* assert 0 < i < len(tokens) - 1 *)
+| S_expr_operators_lookup     (* OPERATORS[token.string] *)
+| S_expr_empty                (* tokens[0] of an empty token list *)
+| S_expr_first_not_token      (* assert isinstance(tokens[0], Token) at the end *)
+| S_guarded_index             (* tokens[k] right after a pattern match of length > k *)
+| S_guarded_assert.           (* assert isinstance(tokens[k], Token / Sequence) right after a pattern match *)
+
+Definition site_class (s : site) : xclass :=
+  match s with
+  | S_group_pop | S_path_first | S_step_all_tokens_last | S_step_pi_arg_index | S_step_test_index
+  | S_step_pred_last_index | S_expr_empty | S_guarded_index => CIndexError
+  | S_group_complement | S_step_node_type | S_step_operators_lookup | S_expr_operators_lookup => CKeyError
+  | S_step_last_not_token | S_step_pi_name | S_step_pi_arg_not_token | S_step_test_not_token
+  | S_step_pred_last_not_token | S_expr_operand | S_expr_first_not_token | S_guarded_assert => CAssertionError
+  | S_expr_int => CValueError
+  | S_path_not_implemented => CNotImplementedError
+  end.
+
+Definition site_id (s : site) : N :=
+  match s with
+  | S_group_pop => 0 | S_group_complement => 1 | S_path_first => 2 | S_path_not_implemented => 3
+  | S_step_all_tokens_last => 4 | S_step_last_not_token => 5 | S_step_pi_name => 6 | S_step_pi_arg_index => 7
+  | S_step_pi_arg_not_token => 8 | S_step_node_type => 9 | S_step_test_index => 10 | S_step_test_not_token => 11
+  | S_step_operators_lookup => 12 | S_step_pred_last_index => 13 | S_step_pred_last_not_token => 14
+  | S_expr_int => 15 | S_expr_operand => 16 | S_expr_operators_lookup => 17 | S_expr_empty => 18
+  | S_expr_first_not_token => 19 | S_guarded_index => 20 | S_guarded_assert => 21
+  end%N.
+
+Definition xclass_id (c : xclass) : N :=
+  match c with CIndexError => 0 | CKeyError => 1 | CAssertionError => 2 | CValueError => 3
+             | CNotImplementedError => 4 end%N.
+
+Inductive pres (A : Type) := POk (a : A) | PRej (e : xpe) | PCrash (c : site) | PFuel.
+Arguments POk {A} a. Arguments PRej {A} e. Arguments PCrash {A} c. Arguments PFuel {A}.
+
+Definition pbind {A B} (m : pres A) (f : A -> pres B) : pres B :=
+  match m with POk a => f a | PRej e => PRej e | PCrash c => PCrash c | PFuel => PFuel end.
+Notation "x <- m ;; k" := (pbind m (fun x => k)) (at level 61, m at next level, right associativity).
+Notation "' p <- m ;; k" := (pbind m (fun x => let p := x in k))
+  (at level 61, p pattern, m at next level, right associativity).
+
+(* [f(x) for x in xs], left to right, stopping at the first exception *)
+Fixpoint pmap {A B} (f : A -> pres B) (l : list A) : pres (list B) :=
+  match l with
+  | [] => POk []
+  | x :: r => y <- f x ;; ys <- pmap f r ;; POk (y :: ys)
+  end.
+
+(* except XPathParsingError as e: e.position = p; raise e *)
+Definition at_position {A} (p : nat) (m : pres A) : pres A :=
+  match m with PRej e => PRej (mkXpe (Some p) (x_msg e) (x_unsupported e)) | r => r end.
+
+(* forgetting position and message: the shared result type of Base/PyStr.v *)
+Definition xclass_exn (c : xclass) : exn :=
+  match c with CIndexError => IndexError | CKeyError => KeyError | CAssertionError => AssertionError
+             | CValueError => ValueError | CNotImplementedError => OtherError end.
+Definition to_res {A} (r : pres A) : res A :=
+  match r with
+  | POk a => Ok a
+  | PRej e => Rejected (if x_unsupported e then XPathUnsupported else XPathParsingError)
+  | PCrash c => Crash (xclass_exn (site_class c))
+  | PFuel => OutOfFuel
+  end.
